@@ -892,6 +892,45 @@ def fam_down(ctx):
     return f
 
 
+def fam_source_reads(ctx):
+    """T4: the SourceOp law — a source whose `columns` operand was set by the absorption rule reads exactly those
+    columns (values, labels, order), for every projectable source class"""
+    f = Family("source_reads[columns operand of FromPandas/FromArray/FromMapProjectable/from_dict/read_csv/read_parquet]")
+    pdf = _tables(False)["N"]
+    cols = list(pdf.columns)
+    sig = {c: int(pdf[c].iloc[5]) for c in cols}  # row 5 identifies the column a value comes from
+    assert len(set(sig.values())) == len(cols)
+    back = {v: c for c, v in sig.items()}
+    sels = [list(p) for r in (1, 2, 3) for p in itertools.combinations(cols, r)]
+    if ctx.quick:
+        sels = sels[::2]
+    inputs, code, model = [], [], []
+    for source in SOURCES:
+        df = _source_N(pdf, source, False)
+        src = next((e for e in df.expr.walk() if getattr(e, "_absorb_projections", False)), None)
+        if src is None:
+            code.append("no projectable source")
+            model.append("projectable source")
+            inputs.append(source)
+            continue
+        for sel in sels:
+            import dask_expr as dx
+
+            try:
+                e = df.expr.substitute(src, src.substitute_parameters({"columns": sel}))
+                got = dx.new_collection(e.lower_completely()).compute()
+                read = [back.get(int(got[c].iloc[5]), "?") for c in got.columns]
+                out = f"labels={rc(got.columns)} data={rc(read)}"
+            except Exception as ex:  # noqa: BLE001
+                out = f"ERR {type(ex).__name__}"
+            inputs.append({"source": source, "class": type(src).__name__, "columns": sel})
+            code.append(out)
+            model.append(f"labels={rc(sel)} data={rc(sel)}")
+    f.compare(inputs, code, model)
+    f.note = "model side = SourceOp.read_cols/read_val: read(cs) has labels cs and the data of cs"
+    return f
+
+
 def fam_category_conformance(ctx):
     """T4: the hand-assigned category of the classes that reach plain_column_projection (harness/extractors_cols.py):
     columnLocal  <=>  op(F)[sel] == op(F[sel + keys])[sel]  on the real implementation (unoptimised lowering)"""
@@ -920,6 +959,8 @@ def fam_category_conformance(ctx):
         ("Filter", D, lambda d: d[dd["L"].a > 2], []),
         ("Corr", D, lambda d: d.corr(), []), ("Cov", D, lambda d: d.cov(), []), ("Mode", D[["a", "b"]], lambda d: d.mode(), []),
         ("Categorize", S, lambda d: d.categorize(columns=["b"]), []),
+        ("Apply", D.astype("float64"), lambda d: d.apply(lambda row: row / row.sum(), axis=1, meta=d._meta), []),
+        ("MapPartitions", D.astype("float64"), lambda d: d.map_partitions(lambda x: x.div(x.sum(axis=1), axis=0)), []),
     ]
     inputs, code, model = [], [], []
     for nm, frame, mk, keys in makers:
@@ -952,7 +993,7 @@ def fam_category_conformance(ctx):
 def families(ctx):
     return [fam_detproj, fam_plain, fam_reduction, fam_filter, fam_assign, fam_rename, fam_affix, fam_binop, fam_astype,
             fam_dropna, fam_combine_first, fam_opalign, fam_reset_index, fam_io, fam_keyed, fam_rolling, fam_merge, fam_merge_labels, fam_concat, fam_down,
-            fam_category_conformance]
+            fam_source_reads, fam_category_conformance]
 
 
 # =========================================================================== end-to-end support / failing-input search
